@@ -35,7 +35,7 @@ for n in names:
     lines.append("| %s | `%s` | %s | `%s` | %s |" % (n, ", ".join(files), summ.get(n, ""), sig.replace("|", "\\|"), first))
 total = len(names)
 text = []
-text.append("%d seeded changes (two per property and wave; wave 1+2 = `-1`/`-2`, wave 3 = `-3`/`-4`, wave 4 = `-5`/`-6`, wave 5 = `-7`/`-8`, written by 80 independent\n"
+text.append("%d seeded changes (two per property and wave; wave 1+2 = `-1`/`-2`, wave 3 = `-3`/`-4`, wave 4 = `-5`/`-6`, wave 5 = `-7`/`-8`, wave 6 = `-9`/`-10`, written by 100 independent\n"
             "sub-agents that saw only the property record and a scratch worktree; every one confirmed by me in that worktree: applies,\n"
             "builds, baseline suite passes, demonstration fails with it and passes without). `tools/triage_seed.py` does the\n"
             "confirmation and the first run of the owning quick check (in an isolated copy of /verif against a clone of /repo),\n"
